@@ -18,7 +18,7 @@ ASSUMPTIONS = ["SQLite's own atomic commit and the filesystem are trusted; only 
                "one-time/signed prekeys are stored under fresh ids only (the library never overwrites an id)"]
 REQUIRED = ["sequences", "reopen_checks", "replace_ops", "crash_children", "crash_died_inside", "crash_outcome:old",
             "crash_outcome:new", "conversation_restarts", "crash_kind:sql", "crash_kind:commit", "crash_kind:line",
-            "manager_sequences", "manager_kill_snapshots", "manager_prekeys_generated"]
+            "manager_sequences", "manager_kill_snapshots", "manager_prekeys_generated", "crash_cases_with_in_process_history"]
 TIMEOUT = {"quick": 900, "thorough": 7200}
 
 
@@ -428,9 +428,26 @@ def crash_case(acc, seed, tag, mat, opkind, prefix_len, lines=True):
         acc.count("replace_ops")
     acc.count("crash_op:" + last[0] + (":replace" if repl else ""))
 
+    # what the same process did on this connection before the judged operation (a long-running client): the tail of the prefix
+    # is replayed by the child itself, un-judged (every operation is idempotent on the state it already produced)
+    replay_tail = [op for op in pre[-r.choice([0, 0, 3, 6]):] if op[0] in ("storeSession", "saveIdentity", "storeSenderKey", "setAsSent")] if pre else []
+    if pre and r.random() < 0.3:
+        # ... in particular a key upload was confirmed earlier on this connection
+        replay_tail.append(["setAsSent", []])
+
+    def keeps_state(op_):
+        m2 = model.copy()
+        apply_model(op_, m2, mat)
+        return model_diff(model, m2, check_local=False) is None and model_diff(m2, model, check_local=False) is None
+    replay_tail = [op_ for op_ in replay_tail if keeps_state(op_)]
+    if replay_tail:
+        acc.count("crash_cases_with_in_process_history")
+
     def child_body(ticker):
         las.sqlite3 = sqlite_shim(ticker)
         st = open_store(path)
+        for op_ in replay_tail:
+            apply_store(op_, st, mat)
         ticker.armed = True
         if lines:
             with inject.LineTicks(ticker, ("store/sqlite/liteaxolotlstore.py", "store/sqlite/litesessionstore.py", "store/sqlite/liteidentitykeystore.py",
